@@ -58,6 +58,21 @@ CLAIMED = {
         note="The function theorems carry the hypothesis that the degree is unchanged (kdeg c' = cdeg c), which excludes only "
              "requests containing an end knot: the library re-infers the degree there and then refuses in apply (covered by the "
              "correspondence and by C04_nonvacuous_refused)."),
+    "C05": dict(
+        text="Theorems (Props/C05.v): after a successful knot_remove the old vector is the new one plus nodes (per-value counts, "
+             "length), well-formed; absent knots refused with ValueError; a success under tolerance t certifies error <= t for "
+             "the model's projection (never silently lossy); the inverse used by the projection is certified (M'M = MM' = I). "
+             "Decided per generated case inside Coq: the implementation's new vector, refusal class and unchanged state; exact "
+             "undo of a previous knot_insert (tuple equality with the original curve, for default / explicit / None tolerance); "
+             "the exact integral of the squared deviation (open Newton-Cotes of sufficient order on every span, per coordinate) "
+             "<= 2*tol*max(1,L); interpolation at all remaining knots for tolerance=None. Model of the constrained "
+             "least-squares projection (Gram matrices, bordered solve) tied by exact differential execution.",
+        design="7/C05",
+        technique="Coq proof (knot-vector algebra, certified inverse, tolerance guard) + correspondence and exact deviation oracle by vm_compute",
+        note="Polynomial curves only: the weighted (rational) projection of the library is lossy (known finding K1) and is kept "
+             "out of the model. 'Succeeds whenever exactly removable' is decided per case (undo stream), not proved "
+             "(needs positive-definiteness of the Gram matrix). tolerance=None interpolation is required for degree >= 1 "
+             "only (a degree-0 piecewise constant cannot interpolate both ends of a merged span)."),
     "C07": dict(
         text="Theorems (Props/C07.v): pieces of the knot-vector split are well-formed; the refinement matrix used by split "
              "(insertion of every cut up to multiplicity degree+1) preserves the curve at every u (from the C04 development). "
@@ -73,6 +88,20 @@ CLAIMED = {
              "oracle, not yet by a for-all theorem (Proofs/SplitProofs.v in progress); join has no executable model yet "
              "(it goes through degree elevation and knot_clean), so its correspondence is oracle-only. Known finding K6: a "
              "rational join keeps the junction knot with full multiplicity."),
+    "C11": dict(
+        text="Decided per generated case inside Coq from the implementation's output: exact moments int (C-D) M_i du = 0 for every "
+             "basis function of the target space (open Newton-Cotes of sufficient order per span - exact for the polynomial "
+             "pieces), reproduction with error 0 for in-space sources (refined by insertion/elevation), returned error == kappa * "
+             "exact integral of the squared residual of the worst coordinate (kappa = 1, or 1/2 with nodes), error >= 0 and 0 iff "
+             "residual 0, interpolation at the nodes and residual moments in the row space of the collocation matrix "
+             "(orthogonal to every element vanishing at the nodes), source unchanged. Theorems (Props/C11.v): certified inverse, "
+             "normal equations / orthogonality / minimality of the discrete least-squares solve. Model of func2func tied by "
+             "exact differential execution; the quadrature rule and span scaling it uses are read from the source.",
+        design="7/C11",
+        technique="Coq proof (certified linear solves, normal equations) + correspondence and exact orthogonality oracle by vm_compute",
+        note="The lift of the normal equations to the model's Gram matrices (continuous projection) is in Proofs/LSProofs.v "
+             "(in progress). Known finding K7: the quadrature has p+q+3 nodes, so for |p-q| >= 3 the returned error is "
+             "not the exact integral; such pairs are outside the generated stream. Rational curves: K1."),
     "C17": dict(
         text="Unbounded theorems (Props/C17.v), for all well-formed operands whose distinct knots are >= 1e-6 apart: U|V has "
              "degree max(p,q) and, for every value x, multiplicity max of the degree-lifted multiplicities (per-knot maximum at "
